@@ -252,6 +252,7 @@ pub fn run(ctx: &Ctx) -> Report {
         (p3(ctx.pick(4, 5), 2), false),
         (p4(ctx.pick(12, 40), false), true),
         (p5_full(), false),
+        (p_guard_args(), false),
         (p5_thin(), true),
         (p_gc(), true),
         (p_vectors(ctx.pick(2, 8)), false),
